@@ -249,6 +249,97 @@ theorem pad8_noquote (v : Str) (hq : '\'' ∉ v) : '\'' ∉ pad8 v := by
 theorem stripQuotes_s2c (v : Str) (hq : '\'' ∉ v) (hl : v.length ≤ 68) : stripQuotes (s2c v) = pad8 v := by
   rw [s2c_plain v hq hl, stripQuotes_quoted _ (pad8_noquote v hq)]
 
+/-! ### values with apostrophes: `ffs2c` doubles them, the reader's copy loop halves every run again -/
+
+/-- the stored form of a value: every apostrophe doubled -/
+def dbl : Str → Str
+  | [] => []
+  | c :: r => if c = '\'' then '\'' :: '\'' :: dbl r else c :: dbl r
+
+theorem storedLen_nil : storedLen [] = 0 := rfl
+
+theorem storedLen_cons_quote (r : Str) : storedLen ('\'' :: r) = storedLen r + 2 := by
+  simp only [storedLen, List.length_cons, List.count_cons_self]; omega
+
+theorem storedLen_cons_other (c : Char) (r : Str) (hc : c ≠ '\'') : storedLen (c :: r) = storedLen r + 1 := by
+  simp only [storedLen, List.length_cons, List.count_cons_of_ne hc]; omega
+
+theorem storedLen_plain (v : Str) (hq : '\'' ∉ v) : storedLen v = v.length := by
+  simp only [storedLen, List.count_eq_zero_of_not_mem hq, Nat.add_zero]
+
+theorem length_le_storedLen (v : Str) : v.length ≤ storedLen v := by
+  unfold storedLen; omega
+
+theorem padFits_plain (v : Str) (hq : '\'' ∉ v) : padFits v = pad8 v := by
+  unfold padFits pad8; rw [storedLen_plain v hq]
+
+theorem dbl_length (v : Str) : (dbl v).length = storedLen v := by
+  induction v with
+  | nil => rfl
+  | cons c r ih =>
+    by_cases hc : c = '\''
+    · subst hc; simp only [dbl, if_true, List.length_cons, ih, storedLen_cons_quote]
+    · simp only [dbl, if_neg hc, List.length_cons, ih, storedLen_cons_other c r hc]
+
+theorem s2cLoop_dbl (v : Str) : ∀ jj, jj + storedLen v ≤ 69 → s2cLoop v jj = (dbl v, jj + storedLen v) := by
+  induction v with
+  | nil => intro jj _; rfl
+  | cons c r ih =>
+    intro jj hl
+    by_cases hc : c = '\''
+    · subst hc
+      rw [storedLen_cons_quote] at hl ⊢
+      have hj : jj < 69 := by omega
+      simp only [s2cLoop, if_pos hj, if_true, ih (jj+2) (by omega), dbl]
+      congr 1; omega
+    · rw [storedLen_cons_other c r hc] at hl ⊢
+      have hj : jj < 69 := by omega
+      simp only [s2cLoop, if_pos hj, if_neg hc, ih (jj+1) (by omega), dbl]
+      congr 1; omega
+
+/-- `ffs2c` of any value that fits: opening quote, the doubled text, blanks up to 8 stored characters, closing quote -/
+theorem s2c_dbl (v : Str) (hl : storedLen v ≤ 68) :
+    s2c v = '\'' :: (dbl v ++ List.replicate (8 - storedLen v) ' ' ++ ['\'']) := by
+  have h1 : v.take 68 = v := List.take_of_length_le (Nat.le_trans (length_le_storedLen v) hl)
+  have h2 := s2cLoop_dbl v 1 (by omega)
+  simp only [s2c, h1, h2]
+  have h3 : ¬ (1 + storedLen v + (9 - (1 + storedLen v)) = 70) := by omega
+  rw [if_neg h3]
+  have h4 : 9 - (1 + storedLen v) = 8 - storedLen v := by omega
+  rw [h4]
+
+theorem undouble_quote2 (r : Str) : undouble ('\'' :: '\'' :: r) = '\'' :: undouble r := by
+  rw [undouble]
+
+theorem undouble_other (c : Char) (r : Str) (hc : c ≠ '\'') : undouble (c :: r) = c :: undouble r :=
+  undouble.eq_3 c r (fun _ hc' _ => hc hc')
+
+/-- the reader's copy loop inverts the doubling, whatever follows -/
+theorem undouble_dbl_append (v w : Str) : undouble (dbl v ++ w) = v ++ undouble w := by
+  induction v with
+  | nil => rfl
+  | cons c r ih =>
+    by_cases hc : c = '\''
+    · subst hc
+      simp only [dbl, if_true, List.cons_append, undouble_quote2, ih]
+    · simp only [dbl, if_neg hc, List.cons_append, undouble_other c _ hc, ih]
+
+theorem stripQuotes_quoted_any (w : Str) : stripQuotes ('\'' :: (w ++ ['\''])) = undouble w := by
+  have h1 : ('\'' :: (w ++ ['\''])).getLast? = some '\'' := by
+    rw [List.getLast?_cons_of_ne_nil (by simp)]; simp
+  unfold stripQuotes
+  rw [if_pos (by rfl), if_pos ⟨by simp, h1⟩]
+  simp only [List.drop_succ_cons, List.drop_zero, List.dropLast_concat]
+
+/-- **write → read of one auxiliary value, apostrophes included**: the value comes back followed by the blanks FITS
+    added, nothing else (single, leading, trailing apostrophes, adjacent runs, values made of apostrophes only, values
+    whose stored form fills the card). -/
+theorem stripQuotes_s2c_any (v : Str) (hl : storedLen v ≤ 68) : stripQuotes (s2c v) = padFits v := by
+  have hb : '\'' ∉ List.replicate (8 - storedLen v) ' ' := by
+    intro h; have := List.eq_of_mem_replicate h; exact absurd this (by decide)
+  rw [s2c_dbl v hl, stripQuotes_quoted_any, undouble_dbl_append, undouble_plain _ hb]
+  rfl
+
 theorem c2sLoop_plain (w : Str) (hq : '\'' ∉ w) : c2sLoop (w ++ ['\'']) = w := by
   induction w with
   | nil => rfl
@@ -652,19 +743,19 @@ theorem readAux_cons_keep (c : Card) (cs : List Card) (h : reserved c.key = fals
   simp [readAux, h]
 
 theorem readAux_auxCards (aux : List (Str × Str))
-    (h : ∀ kv ∈ aux, reserved kv.1 = false ∧ '\'' ∉ kv.2 ∧ kv.2.length ≤ 68) :
-    readAux (aux.map fun kv => cardStr kv.1 kv.2 []) = aux.map fun kv => (kv.1, pad8 kv.2) := by
+    (h : ∀ kv ∈ aux, reserved kv.1 = false ∧ storedLen kv.2 ≤ 68) :
+    readAux (aux.map fun kv => cardStr kv.1 kv.2 []) = aux.map fun kv => (kv.1, padFits kv.2) := by
   induction aux with
   | nil => rfl
   | cons kv r ih =>
-    obtain ⟨h1, h2, h3⟩ := h kv (by simp)
+    obtain ⟨h1, h2⟩ := h kv (by simp)
     have ih' := ih fun x hx => h x (by simp [hx])
     rw [List.map_cons, List.map_cons, readAux_cons_keep _ _ h1, ih']
-    simp only [cardStr, stripQuotes_s2c _ h2 h3]
+    simp only [cardStr, stripQuotes_s2c_any _ h2]
 
 theorem aux_read (E : Ext) (s : Bool) (t : Table)
-    (h : ∀ kv ∈ t.aux, reserved kv.1 = false ∧ '\'' ∉ kv.2 ∧ kv.2.length ≤ 68) :
-    readAux (hdrCards true (primHdu E s t)) = t.aux.map fun kv => (kv.1, pad8 kv.2) := by
+    (h : ∀ kv ∈ t.aux, reserved kv.1 = false ∧ storedLen kv.2 ≤ 68) :
+    readAux (hdrCards true (primHdu E s t)) = t.aux.map fun kv => (kv.1, padFits kv.2) := by
   rw [hdr_prim, readAux_append, readAux_append, readAux_append,
     readAux_reserved _ fun c hc => (preCards_key t c hc).1,
     readAux_reserved _ fun c hc => (ordCards_key s t c hc).1,
@@ -946,7 +1037,7 @@ theorem readCore_strides (E : Ext) (h0 : Hdu) (rest : List Hdu) (t : Table)
 /-- the table `readCore` returns for `writeGen E s t` -/
 def rereadTable (E : Ext) (t : Table) : Table :=
   ⟨t.order, t.knots, t.naxes, t.strides, t.coef, some (t.extents.getD (defaultExtents t.order t.knots)),
-   some (rdPeriods E t), t.aux.map fun kv => (kv.1, pad8 kv.2)⟩
+   some (rdPeriods E t), t.aux.map fun kv => (kv.1, padFits kv.2)⟩
 
 theorem readCore_writeGen (E : Ext) (t : Table) (s : Bool)
     (ndim_pos : 1 ≤ t.ndim) (ndim_le : t.ndim ≤ 999)
@@ -957,13 +1048,13 @@ theorem readCore_writeGen (E : Ext) (t : Table) (s : Bool)
     (order_lt : ∀ o ∈ t.order, o < 2147483648)
     (extents_len : ∀ e, t.extents = some e → e.length = 2 * t.ndim)
     (aux_ok : ∀ kv ∈ t.aux, reserved kv.1 = false ∧ kv.1 ≠ "EXTNAME".toList ∧ kv.1 ≠ "HDUNAME".toList
-            ∧ '\'' ∉ kv.2 ∧ kv.2.length ≤ 68)
+            ∧ storedLen kv.2 ≤ 68)
     (hs : s = true → ∀ x ∈ t.order, x = t.order.headD 0) :
     readCore E (writeGen E s t) = .ok (rereadTable E t) := by
   have haux1 : ∀ kv ∈ t.aux, reserved kv.1 = false := fun kv h => (aux_ok kv h).1
   have haux2 : ∀ kv ∈ t.aux, kv.1 ≠ "EXTNAME".toList ∧ kv.1 ≠ "HDUNAME".toList :=
     fun kv h => ⟨(aux_ok kv h).2.1, (aux_ok kv h).2.2.1⟩
-  have haux3 : ∀ kv ∈ t.aux, reserved kv.1 = false ∧ '\'' ∉ kv.2 ∧ kv.2.length ≤ 68 :=
+  have haux3 : ∀ kv ∈ t.aux, reserved kv.1 = false ∧ storedLen kv.2 ≤ 68 :=
     fun kv h => ⟨(aux_ok kv h).1, (aux_ok kv h).2.2.2⟩
   have hax : (primHdu E s t).axes = t.naxes.reverse := wAxes_eq t naxes_len
   have hlen : (primHdu E s t).axes.length = t.ndim := by rw [hax, List.length_reverse, naxes_len]
@@ -996,8 +1087,8 @@ theorem readCore_writeGen (E : Ext) (t : Table) (s : Bool)
 
 /-! ## concrete tables used as witnesses that the hypotheses of the C06 theorems are satisfiable -/
 
-/-- 2-dimensional, 2 × 3 coefficients, orders 2 and 3, extents and periods present, two aux keys
-    (one with an empty value, one with blanks inside) -/
+/-- 2-dimensional, 2 × 3 coefficients, orders 2 and 3, extents and periods present, three aux keys
+    (one with blanks inside, one with an empty value, one with a single apostrophe and a run of two) -/
 def exTable : Table :=
   { order := [2, 3]
     knots := [[0, 1, 2, 3, 4], [10, 11, 12, 13, 14, 15, 16]]
@@ -1006,7 +1097,7 @@ def exTable : Table :=
     coef := [1, 2, 3, 4, 5, 6]
     extents := some [2, 2, 13, 13]
     periods := some [0, 7]
-    aux := [("AUTHOR".toList, "J. Doe".toList), ("NOTE".toList, [])] }
+    aux := [("AUTHOR".toList, "J. Doe".toList), ("NOTE".toList, []), ("REMARK".toList, "it's ''".toList)] }
 
 /-- the same with equal orders and neither extents nor periods -/
 def exTableLegacy : Table :=
